@@ -1,7 +1,7 @@
 //! Scheduling decisions: uniform random walk, PCT-style priorities, or replay of a choice list.
 
 use crate::rng::Rng;
-use std::collections::HashMap;
+use std::collections::BTreeMap;
 
 #[derive(Debug, Clone, Copy, PartialEq, Eq)]
 pub enum SchedKind {
@@ -23,7 +23,7 @@ enum Mode {
     Random(Rng),
     Pct {
         rng: Rng,
-        prio: HashMap<u64, u64>,
+        prio: BTreeMap<u64, u64>,
         change_points: Vec<usize>,
         low: u64,
     },
@@ -50,7 +50,7 @@ impl Chooser {
         Self {
             mode: Mode::Pct {
                 rng,
-                prio: HashMap::new(),
+                prio: BTreeMap::new(),
                 change_points,
                 low: 0,
             },
@@ -125,6 +125,9 @@ impl Chooser {
                 c % keys.len()
             }
         };
+        if std::env::var("VERIF_DEBUG_SCHED").is_ok() {
+            eprintln!("sched {} keys {:?} -> {}", self.step, keys, idx);
+        }
         self.choices.push(idx as u32);
         self.step += 1;
         idx
